@@ -4,7 +4,8 @@
 
   A database is a set of existing buckets (paths) and a partial map  Path → Key → Option Val.
   A write transaction works on a private copy that replaces the committed database at commit and
-  is dropped at rollback; readers always see the committed database.  Nothing here knows about
+  is dropped at rollback; a read transaction sees the database as committed when it began,
+  whatever is committed while it is open.  Nothing here knows about
   key encodings, prefixes, batches or sequence numbers.   Core Lean only.
 -/
 import MW.Base.KvOps
@@ -110,7 +111,7 @@ def DB.iter (d : DB) (p : Path) (start limit : Bytes) (script : List IterStep) :
 structure Sys where
   committed : DB := {}
   pending : Option DB := none      -- the private copy of the open write transaction
-  reader : Bool := false           -- a read transaction is open
+  reader : Option DB := none       -- the open read transaction: the database as committed at its begin
 
 /-- a data operation on database `d`; `ro` = issued through a read-only transaction -/
 def dataOp (d : DB) (ro : Bool) : Op → Obs × DB
@@ -136,13 +137,13 @@ def slotOf : Op → Option Slot
 def Sys.step (s : Sys) (op : Op) : Sys × Obs :=
   match op with
   | .beginW => if s.pending.isSome then (s, .badop) else ({ s with pending := some s.committed }, .ok)
-  | .beginR => if s.reader then (s, .badop) else ({ s with reader := true }, .ok)
+  | .beginR => if s.reader.isSome then (s, .badop) else ({ s with reader := some s.committed }, .ok)
   | .commit => match s.pending with
       | none => (s, .badop)
       | some d => ({ s with committed := d, pending := none }, .ok)
   | .rollback => if s.pending.isSome then ({ s with pending := none }, .ok) else (s, .badop)
-  | .endR => if s.reader then ({ s with reader := false }, .ok) else (s, .badop)
-  | .reopen => if s.pending.isSome || s.reader then (s, .badop) else (s, .ok)
+  | .endR => if s.reader.isSome then ({ s with reader := none }, .ok) else (s, .badop)
+  | .reopen => if s.pending.isSome || s.reader.isSome then (s, .badop) else (s, .ok)
   | .probe => (s, if s.pending.isSome then .blocked else .acquired)
   | .raw => (s, .unspecified)
   | op =>
@@ -153,8 +154,9 @@ def Sys.step (s : Sys) (op : Op) : Sys × Obs :=
       | none => (s, .notx)
       | some d => let (o, d') := dataOp d false op; ({ s with pending := some d' }, o)
     | some .r =>
-      if !s.reader then (s, .notx)
-      else (s, (dataOp s.committed true op).1)
+      match s.reader with
+      | none => (s, .notx)
+      | some d => (s, (dataOp d true op).1)
 
 def run (s : Sys) : List Op → List Obs
   | [] => []
